@@ -27,7 +27,8 @@ fn probe<T: Deserializable + Serializable + PartialEq>(bytes: &[u8]) -> String {
 fn main() {
     let args: Vec<String> = std::env::args().collect();
     let ty = args[1].clone();
-    let bytes = hex(&args[2]);
+    // `@path`: read the hex string from a file (inputs longer than the argv limit)
+    let bytes = if let Some(path) = args[2].strip_prefix('@') { hex(&std::fs::read_to_string(path).unwrap()) } else { hex(&args[2]) };
     let r = panic::catch_unwind(move || match ty.as_str() {
         "kernel" => probe::<Kernel>(&bytes),
         "programinfo" => probe::<ProgramInfo>(&bytes),
@@ -55,6 +56,17 @@ fn main() {
                 }
             }
         }
+        "program" => match miden_assembly::ast::ProgramAst::from_bytes(&bytes) {
+            Err(e) => format!("REJECTED {e}"),
+            Ok(ast) => {
+                let out = ast.to_bytes(miden_assembly::ast::AstSerdeOptions::new(false));
+                match miden_assembly::ast::ProgramAst::from_bytes(&out) {
+                    Ok(back) if back == ast => "ROUNDTRIP-OK".to_string(),
+                    Ok(_) => "ROUNDTRIP-MISMATCH decoded value differs".to_string(),
+                    Err(e) => format!("ROUNDTRIP-MISMATCH re-encoded bytes rejected: {e}"),
+                }
+            }
+        },
         "instr" => match <miden_assembly::ast::Instruction as Deserializable>::read_from_bytes(&bytes) { Ok(i) => format!("ACCEPTED {i}"), Err(e) => format!("REJECTED {e}") },
         "proof" => match miden_air::ExecutionProof::from_bytes(&bytes) { Ok(_) => "ACCEPTED".into(), Err(e) => format!("REJECTED {e}") },
         _ => "unknown type".to_string(),
